@@ -590,6 +590,9 @@ impl SlabRouter {
         self.save_to_file(snapshot_path)
             .map_err(|e| SlabRouterError::WalError(format!("Failed to save snapshot: {e}")))?;
 
+        #[cfg(feature = "neumann_verif")]
+        verif_durable_window("checkpoint: snapshot saved");
+
         let checkpoint_id = self.checkpoint_counter.fetch_add(1, Ordering::SeqCst);
 
         // Log checkpoint marker and truncate WAL
